@@ -88,8 +88,15 @@ def compare_paint(ref, got, pts, eps_out, fg_list=FGS, stats=None):
         return None, {"decisive": 0}
     dt = np.zeros(len(pts))
     if ref.kind != "solid":
-        _, g = _grad_norm(ref, pts)
-        dt = np.nan_to_num(g, nan=1e9) * eps_out + ref.field_dt(pts)
+        t0, g = _grad_norm(ref, pts)
+        dt = np.nan_to_num(g, nan=1e9) * eps_out
+        # the linear estimate is blind where the gradient of t vanishes although t bends sharply within eps_out (the
+        # centre line of a radial gradient squeezed onto a bar thinner than the outline tolerance): take the actual
+        # change of t under a displacement of eps_out in 8 directions as well
+        for k in range(8):
+            u = np.array([np.cos(k * np.pi / 4), np.sin(k * np.pi / 4)]) * eps_out
+            dt = np.maximum(dt, np.nan_to_num(np.abs(ref.tvals(pts + u) - t0), nan=1e9))
+        dt = dt + ref.field_dt(pts)
     if got.kind != "solid":
         dt = dt + got.field_dt(pts)
         if ref.kind == "solid":
